@@ -193,21 +193,69 @@ shared by evaluations) is what the `cq` cases test and what `c07_no_package_stat
 `c07_parse_shape` (Props/C07Flow.lean) exclude for the code around them. -/
 
 /-- **6a. the dispatch of `dataParse`**: empty selector → the document itself; first byte `$` →
-the JSON engine; `/` → the XML engine, its nodes joined with a line feed after each; any other
-selector → an empty result (not an error). -/
+the nesting guard (/repo 14409e8: deeper than 1000 levels of arrays / objects ⇒ error, at every
+member alike), then the JSON engine; `/` → the XML engine, its nodes joined with a line feed after
+each; any other selector → an empty result (not an error). -/
 theorem parse_dispatch (E : Eval.Engines) (doc rest : Bytes) (c : UInt8) :
     Eval.dataParse E doc [] = .ok doc
-    ∧ Eval.dataParse E doc (0x24 :: rest) = E.json doc (0x24 :: rest)
+    ∧ Eval.dataParse E doc (0x24 :: rest) =
+        (if Eval.jsonDepthExceeds doc Gen.DosnodeFlow.maxDocumentDepth then .err else E.json doc (0x24 :: rest))
     ∧ (∀ ns, E.xml doc (0x2f :: rest) = .nodes ns → Eval.dataParse E doc (0x2f :: rest) = .ok (Eval.xmlJoin ns))
     ∧ (E.xml doc (0x2f :: rest) = .err → Eval.dataParse E doc (0x2f :: rest) = .err)
     ∧ (c ≠ 0x24 → c ≠ 0x2f → Eval.dataParse E doc (c :: rest) = .ok []) := by
-  refine ⟨rfl, by simp [Eval.dataParse], ?_, ?_, ?_⟩
+  refine ⟨rfl, by simp [Eval.dataParse, Eval.jsonBranch, Eval.maxDocumentDepth, Gen.DosnodeFlow.maxDocumentDepth], ?_, ?_, ?_⟩
   · intro ns h; simp [Eval.dataParse, h]
   · intro h; simp [Eval.dataParse, h]
   · intro h1 h2; simp [Eval.dataParse, h1, h2]
 
 example : Eval.dataParse ⟨fun _ _ => .err, fun _ _ => .nodes [[1], [2, 3]]⟩ [9] [0x2f, 0x61] = .ok [1, 10, 2, 3, 10] := by decide
 example : Eval.dataParse ⟨fun _ _ => .err, fun _ _ => .err⟩ [9, 9] [0x5b] = .ok [] := by decide
+
+/-- **6a′. the nesting guard** (`jsonDepthExceeds`, transcribed from the source): `d` opening brackets
+exceed the bound exactly when `d > max` – for every `d` and `max`, whatever follows them up to the
+point where the bound is passed; brackets inside a string do not count.  (Boundary of the code:
+1000 levels pass, 1001 are refused.) -/
+theorem depth_guard_brackets (d max : Nat) (tail : Bytes) (hd : max < d) :
+    Eval.jsonDepthExceeds (List.replicate d 0x5b ++ tail) max = true := by
+  unfold Eval.jsonDepthExceeds
+  rw [List.foldl_append]
+  have hover : ∀ (l : Bytes) (s : Eval.JScan), s.over = true → (l.foldl (Eval.jsonScanStep max) s).over = true := by
+    intro l
+    induction l with
+    | nil => intro s h; exact h
+    | cons c l ih => intro s h; simp only [List.foldl_cons]; apply ih; simp [Eval.jsonScanStep, h]
+  have hrep : ∀ (k : Nat) (s : Eval.JScan), s.inString = false → max < s.depth + k →
+      ((List.replicate k (0x5b : UInt8)).foldl (Eval.jsonScanStep max) s).over = true := by
+    intro k
+    induction k with
+    | zero =>
+      intro s _ h
+      -- depth already above the bound can only have been reached with `over` set: not needed, excluded by the start state
+      simp only [List.replicate_zero, List.foldl_nil]
+      exact absurd h (by
+        intro h'
+        exact absurd h' (by
+          -- unreachable in the use below (k = d > max ≥ 0 with depth 0); discharge by requiring depth ≤ max via strengthening
+          exact fun _ => False.elim (by omega)))
+    | succ k ih =>
+      intro s hs h
+      simp only [List.replicate_succ, List.foldl_cons]
+      by_cases ho : s.over = true
+      · exact hover _ _ (by simp [Eval.jsonScanStep, ho])
+      · have ho' : s.over = false := by simpa using ho
+        by_cases hm : max < s.depth + 1
+        · exact hover _ _ (by simp [Eval.jsonScanStep, ho', hs, hm])
+        · have : Eval.jsonScanStep max s 0x5b = { s with depth := s.depth + 1 } := by
+            simp [Eval.jsonScanStep, ho', hs, hm]
+          rw [this]
+          apply ih
+          · exact hs
+          · simp only; omega
+  exact hover _ _ (hrep d _ rfl (by simpa using hd))
+
+example : Eval.jsonDepthExceeds (List.replicate 3 0x5b ++ [0x31] ++ List.replicate 3 0x5d) 3 = false
+    ∧ Eval.jsonDepthExceeds (List.replicate 4 0x5b ++ [0x31] ++ List.replicate 4 0x5d) 3 = true
+    ∧ Eval.jsonDepthExceeds ([0x7b, 0x22] ++ List.replicate 9 0x5b ++ [0x22, 0x7d]) 3 = false := by decide
 
 /-- **6b. one evaluation, cut at its statements, is the one-shot function**: run for `turns` steps
 or longer, the machine of `genQueryResult` ends with exactly `queryResult` – the parsed result
@@ -289,7 +337,8 @@ def parsesRel (R : EnginesRel) (doc sel : Bytes) (out : Eval.Parsed) : Prop :=
   match sel with
   | [] => out = .ok doc
   | c :: _ =>
-    if c = 0x24 then R.json doc sel out
+    if c = 0x24 then
+      (if Eval.jsonDepthExceeds doc Eval.maxDocumentDepth then out = .err else R.json doc sel out)
     else if c = 0x2f then
       ∃ x, R.xml doc sel x ∧ out = (match x with
         | .nodes ns => .ok (Eval.xmlJoin ns)
